@@ -558,7 +558,7 @@ def get_node_attributes(G, name):
 
 
 @not_implemented()
-def set_edge_attributes(values, name=None):
+def set_edge_attributes(G, values=None, name=None):
     pass
 
 
